@@ -290,6 +290,8 @@ inductive Frame where
   | lst
   | sub
   | dict (m : DMode)
+  /-- a parenthesised expression or tuple display -/
+  | par
 deriving Repr, DecidableEq
 
 inductive Phase where
@@ -348,6 +350,7 @@ def closes (c : Char) (f : Frame) : Bool :=
   | .call _ _ _ => c == ')'
   | .lst | .sub => c == ']'
   | .dict _ => c == '}'
+  | .par => c == ')'
 
 /-- a closing bracket `c` (the operand before it, if any, is complete) -/
 def closeStep (s : PState) (c : Char) (afterOperand : Bool) : PStep :=
@@ -371,7 +374,7 @@ def startsPositional (t : Tok) : Bool :=
   match t with
   | .num | .str => true
   | .kw w => constKw w || w == chars!"lambda"
-  | .op c => c == '-' || c == '[' || c == '{'
+  | .op c => c == '-' || c == '[' || c == '{' || c == '('
   | _ => false
 
 /-- a `-` at the top level of an expression statement: the statement cannot be a target any more -/
@@ -398,7 +401,8 @@ def operandStep (s : PState) (closeOk argStart : Bool) (t : Tok) : PStep :=
     if c = '-' then .go { s with ex := .operand false false, phase := minusPhase s }
     else if c = '[' then .go { s with stack := .lst :: s.stack, ex := .operand true false }
     else if c = '{' then .go { s with stack := .dict .start :: s.stack, ex := .operand true false }
-    else if c = '(' ∨ c = '*' then .stop .unknown
+    else if c = '(' then .go { s with stack := .par :: s.stack, ex := .operand true false }
+    else if c = '*' then .stop .unknown
     else if c = ')' ∨ c = ']' ∨ c = '}' then
       (if closeOk then closeStep s c false else .stop .reject)
     else if c = ':' then (match s.stack with | .sub :: _ => .stop .unknown | _ => .stop .reject)
@@ -426,6 +430,7 @@ def afterStep (s : PState) (isStr : Bool) (t : Tok) : PStep :=
        | [] => .stop .unknown
        | .call h k ns :: rest => .go { s with stack := .call h k ns :: rest, ex := .operand true true }
        | .lst :: _ => .go { s with ex := .operand true false }
+       | .par :: _ => .go { s with ex := .operand true false }
        | .sub :: _ => .stop .unknown
        | .dict m :: rest =>
          (match m with
@@ -455,6 +460,33 @@ def afterStep (s : PState) (isStr : Bool) (t : Tok) : PStep :=
     else .stop .unknown
 
 def isOp (t : Tok) (c : Char) : Bool := t == .op c
+
+/-- `from` NAME `import` `*` NEWLINE (any other import form is outside the subset; a keyword in the
+    place of the module name, a name or the end of the line in the place of `import`, a keyword or the end
+    of the line after `import` are certainly not Python) -/
+def from1Step (s : PState) (t : Tok) : PStep :=
+  match t with
+  | .name _ => .go { s with ex := .from2 }
+  | .kw _ => .stop .reject
+  | _ => .stop .unknown
+def from2Step (s : PState) (t : Tok) : PStep :=
+  match t with
+  | .kw w => if w == chars!"import" then .go { s with ex := .from3 } else .stop .unknown
+  | .name _ => .stop .reject
+  | .newline => .stop .reject
+  | _ => .stop .unknown
+def from3Step (s : PState) (t : Tok) : PStep :=
+  match t with
+  | .op c => if c = '*' then .go { s with ex := .lineEnd } else .stop .unknown
+  | .kw _ => .stop .reject
+  | .newline => .stop .reject
+  | _ => .stop .unknown
+/-- after `pass` / `import *` only the end of the line may follow -/
+def lineEndStep (s : PState) (t : Tok) : PStep :=
+  match t with
+  | .newline => .go { s with ex := .stmtStart, phase := .expr }
+  | .op _ => .stop .unknown
+  | _ => .stop .reject
 
 /-- the phase of an expression statement that starts with `t`: literals, `lambda`, `{`, `-` can never
     become the target of `:` / `=` (a `[` may: list targets) -/
@@ -512,14 +544,10 @@ def pstep (s : PState) (t : Tok) : PStep :=
   | .cls3 => if isOp t ':' then .go { s with ex := .cls4 } else .stop .reject
   | .cls4 =>
     if t = .newline then .go { s with ex := .stmtStart, phase := .expr, needIndent := true } else .stop .unknown
-  | .from1 =>
-    (match t with
-     | .name _ => .go { s with ex := .from2 }
-     | _ => .stop .unknown)
-  | .from2 => if t = .kw (chars!"import") then .go { s with ex := .from3 } else .stop .unknown
-  | .from3 => if isOp t '*' then .go { s with ex := .lineEnd } else .stop .unknown
-  | .lineEnd =>
-    if t = .newline then .go { s with ex := .stmtStart, phase := .expr } else .stop .unknown
+  | .from1 => from1Step s t
+  | .from2 => from2Step s t
+  | .from3 => from3Step s t
+  | .lineEnd => lineEndStep s t
 
 def pfinish (s : PState) : Verdict :=
   if s.ex = .stmtStart ∧ s.stack = [] then (if s.needIndent then .reject else .accept) else .reject
